@@ -1,3 +1,5 @@
 import Sqljson.Audit
 import Sqljson.Props.C15
+import Sqljson.Props.C15b
 #audit_ns C15 Sqljson.C15
+#audit_ns C15 Sqljson.C15b
